@@ -263,10 +263,11 @@ Definition block_checksum (lines : list bytes) : N :=
   let sum := fold_left (fun acc l => acc + rune_sum l + 13) lines 0 in
   (256 - sum mod 256) mod 256.
 
-Fixpoint last_digit_index (s : bytes) (i : nat) (best : option nat) : option nat :=
+(* the run of digits at the start of s *)
+Fixpoint leading_digits (s : bytes) : bytes :=
   match s with
-  | [] => best
-  | x :: r => last_digit_index r (S i) (if is_digit x then Some i else best)
+  | x :: r => if is_digit x then x :: leading_digits r else []
+  | [] => []
   end.
 
 Inductive pans := PUnset | PAns (a : answer) (offset : Z).
@@ -286,12 +287,12 @@ Fixpoint parse_answers (fuel : nat) (str : bytes) (nprops : nat) (acc : list pan
               else if in_list c [78; 110; 82; 114; 45] then parse_answers f rest np (PAns AReject 0 :: acc)
               else if in_list c [76; 108; 61; 72; 104] then parse_answers f rest np (PAns ADefer 0 :: acc)
               else if in_list c [65; 97; 33] then
-                match last_digit_index rest 0 None with
-                | None => None
-                | Some idx =>
-                    let off := atoi_ignore_err (firstn (S idx) rest) in
+                match leading_digits rest with
+                | [] => None
+                | ds =>
+                    let off := atoi_ignore_err ds in
                     let off' := if (Z.of_N ProtocolOffsetSizeLimit <? off)%Z then 0%Z else off in
-                    parse_answers f (skipn (S idx) rest) np (PAns AAccept off' :: acc)
+                    parse_answers f (skipn (length ds) rest) np (PAns AAccept off' :: acc)
                 end
               else None
           end
